@@ -27,6 +27,9 @@
 #ifndef VC_BITS
 #define VC_BITS 8
 #endif
+#ifndef VC_SHIFT
+#define VC_SHIFT 0
+#endif
 #ifndef VC_LOWB
 #define VC_LOWB 0
 #endif
@@ -117,11 +120,11 @@ void harness (void)
 #endif
     }
 #else
-    VH_ASSUME (in_l1x > -LIM (VC_BITS) && in_l1x < LIM (VC_BITS) && in_l2x > -LIM (VC_BITS) && in_l2x < LIM (VC_BITS));
-    VH_ASSUME (in_r1x > -LIM (VC_BITS) && in_r1x < LIM (VC_BITS) && in_r2x > -LIM (VC_BITS) && in_r2x < LIM (VC_BITS));
-    VH_ASSUME (in_l1y > -LIM (VC_BITS) && in_l1y < LIM (VC_BITS) && in_l2y > -LIM (VC_BITS) && in_l2y < LIM (VC_BITS));
-    VH_ASSUME (in_r1y > -LIM (VC_BITS) && in_r1y < LIM (VC_BITS) && in_r2y > -LIM (VC_BITS) && in_r2y < LIM (VC_BITS));
-    VH_ASSUME (in_top > -LIM (VC_BITS) && in_top < LIM (VC_BITS) && in_bottom > -LIM (VC_BITS) && in_bottom < LIM (VC_BITS));
+    /* bounded geometry: every coordinate is v << VC_SHIFT with |v| < 2^VC_BITS (spans +-2 pixels for 6/11) */
+#define SMALL(v) ((v) > -(LIM (VC_BITS) << VC_SHIFT) && (v) < (LIM (VC_BITS) << VC_SHIFT) && ((v) & ((1 << VC_SHIFT) - 1)) == 0)
+    VH_ASSUME (SMALL (in_l1x) && SMALL (in_l2x) && SMALL (in_r1x) && SMALL (in_r2x));
+    VH_ASSUME (SMALL (in_l1y) && SMALL (in_l2y) && SMALL (in_r1y) && SMALL (in_r2y));
+    VH_ASSUME (SMALL (in_top) && SMALL (in_bottom));
     VH_ASSUME (in_xoff == 0 || in_xoff == 1 || in_xoff == -3);
     VH_ASSUME (in_yoff >= -1 && in_yoff <= 1);
 #endif
@@ -177,6 +180,9 @@ void harness (void)
         /* vertical edges, full coordinate range: the walkers sit on the shifted verticals */
         VH_CHECK ("post.left_walker_x", (sf_i64) rec_l.x == in_l1x + xo && rec_l.stepx == 0 && rec_l.dx == 0 && rec_l.stepx_small == 0 && rec_l.stepx_big == 0);
         VH_CHECK ("post.right_walker_x", (sf_i64) rec_r.x == in_r1x + xo && rec_r.stepx == 0 && rec_r.dx == 0 && rec_r.stepx_small == 0 && rec_r.stepx_big == 0);
+        /* end points ordered by y: the walker height is positive */
+        VH_CHECK ("post.walker_heights", (sf_i64) rec_l.dy == (in_l1y > in_l2y ? (sf_i64) in_l1y - in_l2y : (sf_i64) in_l2y - in_l1y)
+                  && (sf_i64) rec_r.dy == (in_r1y > in_r2y ? (sf_i64) in_r1y - in_r2y : (sf_i64) in_r2y - in_r1y));
 #endif
     }
     else
@@ -186,5 +192,9 @@ void harness (void)
         VH_CHECK ("post.skipped_only_if_no_row", !valid || !(c < hi));
     }
     VH_CHECK ("frame.image_validated", rec_validated == 1 || (VC_CASE == 0 && !valid));
+#if defined(VH_CBMC) && VC_GEOM == 1
+    /* vacuity guard: the canary below must be reachable THROUGH a recorded call (the bounded domain contains covered rows) */
+    VH_ASSUME (rec_calls == 1);
+#endif
     VH_END ();
 }
